@@ -339,6 +339,9 @@ func (r *recorder) Before(c *vunix.Call) {
 		r.counters["accept0"] = k + 1
 		for _, in := range r.injects {
 			if in.name == "accept0" && in.index == k {
+				if in.kind == "emfile" {
+					r.acceptFatal = true // the main reactor gives up: the engine shuts down
+				}
 				c.Skip, c.Ret, c.Err = true, -1, errnoOf(in.kind)
 				r.injectedAcc = append(r.injectedAcc, fmt.Sprintf("accept0#%d %s", k, in.kind))
 			}
@@ -446,7 +449,9 @@ func (r *recorder) maybeInject(c *vunix.Call, name string) {
 		if c.Name == "epoll_ctl" {
 			fd = c.Arg2
 		}
-		if name == "close" || name == "epctl-del" {
+		if name == "close" || name == "epctl-del" || name == "recvfrom" {
+			// (recvfrom: the datagram is consumed and the call reports an error, as when the kernel hands back a
+			// pending socket error instead of data; leaving it queued would stall an edge-triggered listener)
 			// close(2) releases the descriptor even when it reports an error; and a registration whose
 			// EPOLL_CTL_DEL "failed" must still be gone from the kernel's point of view: a DEL of a registered
 			// descriptor cannot fail in reality, and leaving the entry behind would make the kernel report a
@@ -588,6 +593,29 @@ func (r *recorder) After(c *vunix.Call) {
 			args := []string{}
 			r.batchFds, r.closedInBatch = map[int]bool{}, map[int]bool{}
 			for i := 0; i < c.Ret; i++ {
+				// fault "evmask": an event that carries a hang-up / error condition is handed to the loop without
+				// its readable/writable bits (the kernel reports such events for a socket that is broken and has
+				// nothing left to read or write; loopback tests practically never see them)
+				if ev := c.EvList[i].Events; !pollOpt && ev&(unix.EPOLLHUP|unix.EPOLLERR|unix.EPOLLRDHUP) != 0 {
+					if _, isConn := r.fdCid[int(c.EvList[i].Fd)]; isConn {
+						for _, in := range r.injects {
+							if in.name != "evmask" {
+								continue
+							}
+							k := r.counters["evmask"]
+							r.counters["evmask"] = k + 1
+							if k == in.index {
+								if in.kind == "hup-only" {
+									ev &^= unix.EPOLLIN | unix.EPOLLOUT | unix.EPOLLPRI
+								} else if ev&unix.EPOLLRDHUP != 0 { // rdhup-no-in
+									ev &^= unix.EPOLLIN | unix.EPOLLPRI
+								}
+								c.EvList[i].Events = ev
+								r.injected = append(r.injected, fmt.Sprintf("evmask#%d %s", k, in.kind))
+							}
+						}
+					}
+				}
 				fd := int(c.EvList[i].Fd)
 				if pollOpt { // the event carries the attachment pointer, not the descriptor
 					d := uint64(uint32(c.EvList[i].Fd)) | uint64(uint32(c.EvList[i].Pad))<<32
